@@ -268,7 +268,7 @@ func runSysPair(idx int, outcome string, tl *traceLog) (res sysRun) {
 	time.Sleep(50 * time.Millisecond) // listeners
 
 	switch outcome {
-	case "success":
+	case "success", "success_then_cancel":
 		b.h.RegisterRemoteSKI(a.ski)
 	case "error":
 		b.h.RegisterRemoteSKI(a.ski)
@@ -280,6 +280,18 @@ func runSysPair(idx int, outcome string, tl *traceLog) (res sysRun) {
 	sa := sample(a, b, tl, "client")
 	sb := sample(b, a, tl, "server")
 
+	if outcome == "success_then_cancel" {
+		// completed and quiet; now the user cancels on A: the connection is not pending and ignores it
+		mid := []sysSide{sa, sb}
+		a.app.touch()
+		b.app.touch()
+		a.h.CancelPairingWithSKI(b.ski)
+		res.Quiet = waitQuiet(a, b, 2000*time.Millisecond, 15*time.Second) && res.Quiet
+		sa = sample(a, b, tl, "client")
+		sb = sample(b, a, tl, "server")
+		sa.Mid, sa.MidAns, sa.MidOK, sa.MidConn, sa.MidShip = mid[0].Notes, mid[0].Answer, mid[0].LastIs, mid[0].Conn, len(mid[0].Reports)
+		sb.Mid, sb.MidAns, sb.MidOK, sb.MidConn, sb.MidShip = mid[1].Notes, mid[1].Answer, mid[1].LastIs, mid[1].Conn, len(mid[1].Reports)
+	}
 	if outcome == "pending_approved" || outcome == "pending_cancelled" {
 		// the stable point "waiting for the user" was sampled above; now the user decides on B
 		mid := []sysSide{sa, sb}
@@ -302,9 +314,9 @@ func runSysPair(idx int, outcome string, tl *traceLog) (res sysRun) {
 
 // sysEvents rebuilds the model's event list of one side from what is known: the user
 // operations of the script, ServeHTTP on the server side, the connection's state changes.
-func sysEvents(outcome, role string, ship []int, upto int, closed bool, final bool) []string {
+func sysEvents(outcome, role string, ship []int, upto int, closed bool, final bool, quietAt int) []string {
 	var ev []string
-	registered := role == "client" || outcome == "success" || outcome == "error"
+	registered := role == "client" || outcome == "success" || outcome == "error" || outcome == "success_then_cancel"
 	if registered {
 		ev = append(ev, "ERegister")
 	}
@@ -313,9 +325,18 @@ func sysEvents(outcome, role string, ship []int, upto int, closed bool, final bo
 	}
 	ev = append(ev, "EConnReg")
 	userDone := false
+	flush := func() {
+		// the harness saw quiescence here: everything spawned so far has been delivered
+		for k := 0; k < len(ship)+2; k++ {
+			ev = append(ev, "EDeliver 0%nat")
+		}
+	}
 	for i, st := range ship {
 		if i >= upto {
 			break
+		}
+		if final && i == quietAt {
+			flush()
 		}
 		if role == "server" && final && !userDone && i > 0 && ship[i-1] == 11 && outcome == "pending_approved" {
 			// RegisterRemoteSKI with the connection registered: ApprovePendingHandshake, no notification
@@ -334,6 +355,12 @@ func sysEvents(outcome, role string, ship []int, upto int, closed bool, final bo
 		}
 	}
 	if role == "server" && final && !userDone && outcome == "pending_cancelled" {
+		ev = append(ev, "ECancel")
+	}
+	if final && quietAt >= len(ship) {
+		flush()
+	}
+	if role == "client" && final && outcome == "success_then_cancel" {
 		ev = append(ev, "ECancel")
 	}
 	if closed {
@@ -365,10 +392,17 @@ func emitSys(w *vh.Writer, idx int, run sysRun) {
 					"notifications": notes, "answer": ans, "model_events": ev},
 			})
 		}
-		if run.Outcome == "pending_approved" || run.Outcome == "pending_cancelled" {
-			put(":waiting_for_user", sysEvents(run.Outcome, s.Role, s.Reports, s.MidShip, !s.MidConn, false), s.Mid, s.MidAns)
+		if run.Outcome == "success_then_cancel" {
+			put(":completed", sysEvents(run.Outcome, s.Role, s.Reports, s.MidShip, !s.MidConn, false, -1), s.Mid, s.MidAns)
 		}
-		put("", sysEvents(run.Outcome, s.Role, s.Reports, len(s.Reports), !s.Conn, true), s.Notes, s.Answer)
+		if run.Outcome == "pending_approved" || run.Outcome == "pending_cancelled" {
+			put(":waiting_for_user", sysEvents(run.Outcome, s.Role, s.Reports, s.MidShip, !s.MidConn, false, -1), s.Mid, s.MidAns)
+		}
+		quietAt := -1
+		if run.Outcome == "success_then_cancel" || run.Outcome == "pending_approved" || run.Outcome == "pending_cancelled" {
+			quietAt = s.MidShip
+		}
+		put("", sysEvents(run.Outcome, s.Role, s.Reports, len(s.Reports), !s.Conn, true, quietAt), s.Notes, s.Answer)
 	}
 }
 
@@ -376,7 +410,7 @@ func runC18sys(r *vh.Rng, n int, out string, w *vh.Writer) {
 	hub.VerifSetDialDelayRanges([][2]int{{0, 1}})
 	tl := &traceLog{m: map[string][]int{}}
 	logging.SetLogging(tl)
-	outcomes := []string{"success", "denied", "error", "pending_approved", "pending_cancelled", "success"}
+	outcomes := []string{"success", "denied", "error", "pending_approved", "pending_cancelled", "success_then_cancel"}
 	runs := make([]sysRun, n)
 	const par = 6
 	for lo := 0; lo < n; lo += par {
